@@ -15,7 +15,7 @@ PID = 'C12'
 LEAN_TARGETS = ['Nitime.Props.C12']
 RULE = ('cases from one PRNG state: stable bivariate VAR models of order 1..6 (companion spectral radius 0.3..0.92), '
         'with and without zeroed cross-couplings, diagonal and correlated positive-definite innovation covariances, '
-        'n_freqs of both parities; analyzer runs on simulated 3..4-channel data with explicit ij lists in random order, '
+        'n_freqs of both parities; covariance scales 1e-12..1e4; analyzer runs on simulated 3..4-channel data with explicit ij lists in random order, '
         'reversed pairs and the default list; distinct = distinct protocol line')
 ASSUMPTIONS = ['det A(ω) ≠ 0 on the grid (true for stable models; generated models are stable)',
                'Σ real symmetric positive definite (σ>0, γ>0, σγ−υ²>0) and the auto components / det S positive: '
